@@ -14,6 +14,23 @@ TV = 'translation_validation'
 
 # id -> (category, text, design_ref, level_note, technique)
 CLAIMS = {
+    'C16': (MC,
+            'FdlHist states the history clauses as predicates over one operation on FdlStore (DeltaOK: with tracking '
+            'on, every storage key whose value changed gains exactly one entry reflecting the new state, an '
+            'addressed-but-unchanged key at most one, any other key none, nothing under suspension; TagDeltaOK for '
+            'tag edits). MC_C16 checks with TLC that a reference history (one entry per changed key) satisfies them '
+            'and that LastEntryIsCurrent follows in every history in the bound. Real Buildables (random signatures '
+            '<= 6 parameters) are edited in an interleaved fashion -- index/slice/attribute edits, tag edits, '
+            'assign, materialize_defaults, update_callable, nested suspend_tracking -- and every event, with the '
+            'entries it appended, their sequence ids, attribution and the last entry per key, is judged by '
+            'Trace_C16 (FdlStore step + DeltaOK + strictly increasing sequence ids + attribution of direct edits + '
+            'LastEntryIsCurrent + last tag set), plus global uniqueness of sequence ids over the batch.',
+            'DESIGN.md §5 C16',
+            'Trusted: TLC, harness projection of history entries. Loose where the statement is silent (re-assigning '
+            'an identical value may add zero or one entry). Attribution is required of direct edits, assign, '
+            'materialize_defaults and update_callable (tag edits are pinned to add_tag by the repository\'s own '
+            'tests). The thread clause is decided by C19.',
+            'TLA+ history clauses; recorded interleaved edit traces validated event by event by TLC'),
     'C20': (MC,
             'FdlTransforms states the clauses as predicates over (pre, post) on the heap machine -- SameMeaning '
             '(identical built graphs, with an unconfigured Partial and its bare callable identified), Equiv for the '
